@@ -198,3 +198,26 @@ def module_loader(P):
         found = P.need_fn('module_load')
     cache.append(found)
     return found
+
+
+def slot_release_sites(P, unit='modules/iauth_xquery.c', table='iauth_xquery_services'):
+    """Stores that empty a slot of the service table: `table.vec[i] = NULL`, or `*slot = NULL` in a function whose
+    parameter `slot` is only ever given the address of an element of that table (`&table.vec[i]`)."""
+    out = []
+    for f in P.unit_fns(unit):
+        for s in f.stores():
+            ev = s.ev
+            if ev['k'] != 'store' or const_of(ev.get('rhs')) != 0 or ev.get('op') != '=':
+                continue
+            lhs = ev.get('lhs') or {}
+            if lhs.get('k') == 'idx' and any(x.get('k') == 'mem' and x.get('field') == 'vec' for x in walk(lhs)) and root_var(lhs) is not None and root_var(lhs)['name'] == table:
+                out.append(s)
+            elif lhs.get('k') == 'un' and lhs.get('op') == '*' and is_var(lhs.get('e')) and lhs['e']['name'] in f.params:
+                pi = f.params.index(lhs['e']['name'])
+                cs = P.callers(f, may=True)
+                def elem_addr(a):
+                    return isinstance(a, dict) and a.get('k') == 'un' and a.get('op') == '&' and isinstance(a.get('e'), dict) and a['e'].get('k') == 'idx' \
+                        and any(x.get('k') == 'mem' and x.get('field') == 'vec' for x in walk(a['e'])) and root_var(a['e']) is not None and root_var(a['e'])['name'] == table
+                if cs and all(pi < len(c.ev['args']) and elem_addr(c.ev['args'][pi]) for c in cs):
+                    out.append(s)
+    return out
